@@ -960,3 +960,99 @@ func init() {
 		return nil
 	})
 }
+
+// ---- minimal reflect (enough for kelindar/binary custom codecs called directly) ----
+
+type rvRec struct {
+	iface Iface      // value form
+	ptr   *Value     // addressable form (Elem of a pointer)
+	elemT types.Type // type of *ptr
+}
+
+func init() {
+	rvOf := func(v Value) rvRec {
+		o, ok := v.(Opaque)
+		if !ok || o.Tag != "reflect.Value" {
+			panic(pathAbort{"unsupported", "reflect.Value not produced by reflect.ValueOf/Elem"})
+		}
+		return o.V.(rvRec)
+	}
+	reg("reflect.ValueOf", func(ex *Exec, caller *frame, fn *ssa.Function, args []Value) Value {
+		return Opaque{Tag: "reflect.Value", V: rvRec{iface: args[0].(Iface)}}
+	})
+	reg("(reflect.Value).Interface", func(ex *Exec, caller *frame, fn *ssa.Function, args []Value) Value {
+		r := rvOf(args[0])
+		if r.ptr != nil {
+			return Iface{T: r.elemT, V: copyVal(*r.ptr)}
+		}
+		return r.iface
+	})
+	reg("(reflect.Value).Elem", func(ex *Exec, caller *frame, fn *ssa.Function, args []Value) Value {
+		r := rvOf(args[0])
+		pt, ok := r.iface.T.Underlying().(*types.Pointer)
+		if r.ptr != nil || !ok {
+			panic(pathAbort{"unsupported", "reflect.Value.Elem on a non-pointer"})
+		}
+		p, _ := r.iface.V.(*Value)
+		if p == nil {
+			panic(ex.goPanicStr("reflect: call of reflect.Value.Elem on nil pointer"))
+		}
+		return Opaque{Tag: "reflect.Value", V: rvRec{ptr: p, elemT: pt.Elem()}}
+	})
+	reg("(reflect.Value).Field", func(ex *Exec, caller *frame, fn *ssa.Function, args []Value) Value {
+		r := rvOf(args[0])
+		it := args[1].(*term.T)
+		if it.Op != term.OConst {
+			panic(pathAbort{"unsupported", "reflect.Value.Field with a symbolic index"})
+		}
+		i := int(it.V)
+		if r.ptr != nil {
+			st, ok := r.elemT.Underlying().(*types.Struct)
+			if !ok || i >= st.NumFields() {
+				panic(ex.goPanicStr("reflect: Field of non-struct or index out of range"))
+			}
+			return Opaque{Tag: "reflect.Value", V: rvRec{ptr: &(*r.ptr).(Struct)[i], elemT: st.Field(i).Type()}}
+		}
+		st, ok := r.iface.T.Underlying().(*types.Struct)
+		if !ok || i >= st.NumFields() {
+			panic(ex.goPanicStr("reflect: Field of non-struct or index out of range"))
+		}
+		return Opaque{Tag: "reflect.Value", V: rvRec{iface: Iface{T: st.Field(i).Type(), V: r.iface.V.(Struct)[i]}}}
+	})
+	rvVal := func(r rvRec) (Value, types.Type) {
+		if r.ptr != nil {
+			return *r.ptr, r.elemT
+		}
+		return r.iface.V, r.iface.T
+	}
+	reg("(reflect.Value).Bytes", func(ex *Exec, caller *frame, fn *ssa.Function, args []Value) Value {
+		v, t := rvVal(rvOf(args[0]))
+		sl, ok := t.Underlying().(*types.Slice)
+		if !ok || !types.Identical(sl.Elem().Underlying(), types.Typ[types.Uint8]) {
+			panic(ex.goPanicStr("reflect: call of reflect.Value.Bytes on non-byte-slice Value"))
+		}
+		return v
+	})
+	reg("(reflect.Value).Uint", func(ex *Exec, caller *frame, fn *ssa.Function, args []Value) Value {
+		v, t := rvVal(rvOf(args[0]))
+		b, ok := t.Underlying().(*types.Basic)
+		if !ok || b.Info()&types.IsUnsigned == 0 {
+			panic(ex.goPanicStr("reflect: call of reflect.Value.Uint on non-unsigned Value"))
+		}
+		return ex.tb.ZExt(v.(*term.T), 64)
+	})
+	reg("(reflect.Value).Set", func(ex *Exec, caller *frame, fn *ssa.Function, args []Value) Value {
+		dst, src := rvOf(args[0]), rvOf(args[1])
+		if dst.ptr == nil {
+			panic(ex.goPanicStr("reflect: reflect.Value.Set using unaddressable value"))
+		}
+		var v Value
+		if src.ptr != nil {
+			v = copyVal(*src.ptr)
+		} else {
+			v = copyVal(src.iface.V)
+		}
+		ex.store(dst.ptr, v)
+		return nil
+	})
+}
